@@ -116,45 +116,81 @@ func record(r *rtr, c fox.Context, kind, m, p string) {
 	cw.Close()
 }
 
-// prime leaves wildcard parameters of an earlier, unrelated request in the pooled contexts of the
-// router's current tree: it serves a request matching a wildcard route (unobserved), then takes several
-// contexts out of the pool at once through Lookup and gives them back with their parameters recorded
-// (Close does not truncate). The observed request that follows, and the copies its handler takes, are
-// then built on contexts that carry foreign parameters. sync.Pool gives no guarantee, hence several.
-func (r *rtr) prime(st *hx.Stats) {
+// prime puts the pooled contexts of the router's current tree in the state an earlier, unrelated request
+// leaves them in, right before the observed request (back-to-back sequence on the same router):
+//
+//	mode 0  nothing extra: the sequence is whatever the generator served on this router before;
+//	mode 1  a request SERVED by a wildcard route (direct match): wildcard parameters stay in c.params;
+//	mode 2  a request served through an IGNORED trailing slash of a wildcard route, when the router has
+//	        one (else as mode 1): c.tsr and c.tsrParams stay set.
+//
+// The primer is served twice through ServeHTTP (unobserved), then several contexts are taken out of the
+// pool at once through Lookup and given back with what the match recorded (Close does not truncate), so
+// that the observed request AND the copies its handler takes (CloneWith draws another pooled context) are
+// built on contexts carrying foreign state. sync.Pool gives no guarantee, hence several.
+func (r *rtr) prime(st *hx.Stats, mode int) {
+	if mode == 0 {
+		st.Count("sequence:natural")
+		return
+	}
 	var prq *http.Request
-	for _, id := range r.routes {
-		if !strings.ContainsAny(id.pattern, "{*") {
-			continue
-		}
-		host := "a.org"
-		pat := id.pattern
-		if i := strings.IndexByte(pat, '/'); i > 0 {
-			host = strings.NewReplacer("{sub}", "foo").Replace(pat[:i])
-			pat = pat[i:]
-		}
-		path := strings.NewReplacer("{x}", "users", "{y}", "42", "{z}", "zz", "*{w}", "w/42").Replace(pat)
-		rq, err := parseWire(id.method, path, host)
-		if err != nil {
-			continue
-		}
-		if rte, cc, _ := r.f.Lookup(nil, rq); rte != nil {
-			n := 0
-			for range cc.Params() {
-				n++
+	viaTsr := false
+	try := func(wantTsr bool) {
+		for _, id := range r.routes {
+			if !strings.ContainsAny(id.pattern, "{*") || (wantTsr && !id.ign) {
+				continue
 			}
-			cc.Close()
-			if n > 0 {
-				prq = rq
-				break
+			host := "a.org"
+			pat := id.pattern
+			if i := strings.IndexByte(pat, '/'); i > 0 {
+				host = strings.NewReplacer("{sub}", "foo").Replace(pat[:i])
+				pat = pat[i:]
+			}
+			path := strings.NewReplacer("{x}", "users", "{y}", "42", "{z}", "zz", "*{w}", "w/42").Replace(pat)
+			if wantTsr {
+				if strings.HasSuffix(path, "/") {
+					path = strings.TrimSuffix(path, "/")
+				} else {
+					path += "/"
+				}
+				if path == "" || id.method == "CONNECT" {
+					continue
+				}
+			}
+			rq, err := parseWire(id.method, path, host)
+			if err != nil {
+				continue
+			}
+			if rte, cc, tsr := r.f.Lookup(nil, rq); rte != nil {
+				n := 0
+				for range cc.Params() {
+					n++
+				}
+				ign := rte.IgnoreTrailingSlashEnabled()
+				cc.Close()
+				if n > 0 && tsr == wantTsr && (!wantTsr || ign) {
+					prq = rq
+					viaTsr = wantTsr
+					return
+				}
 			}
 		}
+	}
+	if mode == 2 {
+		try(true)
+	}
+	if prq == nil {
+		try(false)
 	}
 	if prq == nil {
 		st.Count("sequence:no-wildcard-route-to-prime-with")
 		return
 	}
-	st.Count("sequence:primed-with-a-served-wildcard-request")
+	if viaTsr {
+		st.Count("sequence:after-a-request-served-through-an-ignored-trailing-slash")
+	} else {
+		st.Count("sequence:after-a-served-wildcard-request")
+	}
 	for i := 0; i < 2; i++ {
 		func() {
 			defer func() { _ = recover() }()
@@ -623,7 +659,7 @@ type entry struct {
 	params [][2]string
 }
 
-func runCase(r *rtr, rc *reqCase, st *hx.Stats) (term, human string, nontrivial bool, kind string) {
+func runCase(r *rtr, rc *reqCase, st *hx.Stats, mode int) (term, human string, nontrivial bool, kind string) {
 	rq := rc.req
 	path := rq.URL.Path
 	if len(rq.URL.RawPath) > 0 {
@@ -687,7 +723,7 @@ func runCase(r *rtr, rc *reqCase, st *hx.Stats) (term, human string, nontrivial 
 	})
 
 	// serve, back to back after a served request with wildcard parameters on the same router
-	r.prime(st)
+	r.prime(st, mode)
 	o := &obsT{}
 	cur = o
 	w := httptest.NewRecorder()
@@ -946,8 +982,10 @@ func main() {
 	}
 	st := &hx.Stats{Rule: "real routers with 2-5 method trees (standard and custom methods, some emptied again), 0-6 routes each from a pool of colliding static/param/catch-all/hostname patterns, random per-route and global ignore/redirect trailing-slash options, the four (no-method, auto-OPTIONS) combinations; requests parsed by net/http from wire targets (instantiated patterns with reserved, percent-encoded and non-ASCII parameter values, trailing slash toggled, some unclean, '*', '/', CONNECT in both forms, query strings) plus hand-built URL.Path/RawPath pairs; non-trivial = the request is not served by a direct match (trailing-slash branch, redirect, OPTIONS/405/404 answers); distinct = distinct (router, request) pairs"}
 	distinct := map[string]bool{}
+	seqMode := 0
 	add := func(r *rtr, rc *reqCase, tag string) {
-		term, human, nontrivial, kind := runCase(r, rc, st)
+		seqMode++
+		term, human, nontrivial, kind := runCase(r, rc, st, seqMode%3)
 		cs.Add(term, human)
 		st.Count("handler:" + kind)
 		st.Count("method:" + rc.req.Method)
